@@ -145,7 +145,7 @@ let () =
          let name = String.sub line 0 t in
          let arg = String.sub line (t + 1) (String.length line - t - 1) in
          Buffer.clear buf;
-         (try print buf (run (coq_string name) (parse arg))
+         (try print buf (modelrun_entry (coq_string name) (parse arg))
           with Failure m -> (Buffer.clear buf; Buffer.add_string buf ("!driver:" ^ m))
              | Stack_overflow -> (Buffer.clear buf; Buffer.add_string buf "!stackoverflow"));
          Buffer.add_char buf '\n';
